@@ -1,5 +1,6 @@
 import RxModel.Lemmas.Impl
 import RxModel.Props.C09
+import RxModel.Lemmas.Local
 /-!
 # C13 — item-level errors on multiplexed streams are isolated and routable
 
@@ -94,6 +95,54 @@ theorem C13_unhandled {β} (pre post : List (Ev β)) (k : Key) (e : Err)
     | done k' => simpa [demuxTop] using h2
     | err k' e' => exact h1.elim
     | fatal e' => exact h1.elim
+
+/-! ### "as if the item were absent": any operator whose user function raises, followed by a handler -/
+
+/-- **isolation, general form.**  Let `L` be any per-key operator and suppose that in the state
+reached after the items `pre` the item `x` makes the user function raise: one mux error, state
+unchanged (what `map`, `starmap`, `filter` and `scan` do, `C13_*_one_error`).  Then `L | ignore`
+emits over `pre ++ x :: post` exactly what it emits over `pre ++ post`: the key continues as if the
+item were absent (the chunk of `x` itself is empty). -/
+theorem C13_absent {α β} (L : LocalOp α β) (pre post : List α) (x : α) (e : Err)
+    (h : L.next (stateAfter (compLocal L ignoreOp).next (compLocal L ignoreOp).init pre).1 x =
+          ((stateAfter (compLocal L ignoreOp).next (compLocal L ignoreOp).init pre).1, [.err e])) :
+    (compLocal L ignoreOp).outL (pre ++ x :: post) = (compLocal L ignoreOp).outL (pre ++ post) ∧
+    ((compLocal L ignoreOp).runL (compLocal L ignoreOp).init (pre ++ x :: post)).1 =
+      ((compLocal L ignoreOp).runL (compLocal L ignoreOp).init pre).1 ++ [[]] ++
+        ((compLocal L ignoreOp).runL (stateAfter (compLocal L ignoreOp).next (compLocal L ignoreOp).init pre) post).1 := by
+  have hstep : (compLocal L ignoreOp).next (stateAfter (compLocal L ignoreOp).next (compLocal L ignoreOp).init pre) x =
+      (stateAfter (compLocal L ignoreOp).next (compLocal L ignoreOp).init pre, []) := by
+    generalize stateAfter (compLocal L ignoreOp).next (compLocal L ignoreOp).init pre = st at h ⊢
+    obtain ⟨s, u⟩ := st
+    show (((L.next s x).1, (feedL ignoreOp u (L.next s x).2).1), (feedL ignoreOp u (L.next s x).2).2) = ((s, u), [])
+    simp only at h
+    rw [h]
+    rfl
+  unfold LocalOp.outL LocalOp.runL
+  rw [runRaw_append, runRaw_append, runRaw_cons, hstep]
+  simp
+
+/-- the same with `error.map` as the handler: the mapped item takes the place of the failing one -/
+theorem C13_replaced {α β} (L : LocalOp α β) (hm : Err → β) (s : L.σ) (x : α) (e : Err)
+    (h : L.next s x = (s, [.err e])) :
+    (compLocal L (mapErrOp (fun e => .ok (hm e)))).next (s, ()) x = ((s, ()), [.item (hm e)]) := by
+  show (((L.next s x).1, (feedL (mapErrOp (fun e => .ok (hm e))) () (L.next s x).2).1),
+    (feedL (mapErrOp (fun e => .ok (hm e))) () (L.next s x).2).2) = _
+  rw [h]
+  rfl
+
+/-- instances: the hypothesis of `C13_absent` holds for scan whenever the accumulator raises -/
+theorem C13_scan_absent {α γ} (g : γ → α → Except Err γ) (seed : γ) (r : Bool) (tm : Option (γ → γ))
+    (pre post : List α) (x : α) (e : Err)
+    (h : g ((stateAfter (compLocal (scanOp g seed r tm) ignoreOp).next (compLocal (scanOp g seed r tm) ignoreOp).init pre).1.getD seed) x = .error e) :
+    (compLocal (scanOp g seed r tm) ignoreOp).outL (pre ++ x :: post) =
+      (compLocal (scanOp g seed r tm) ignoreOp).outL (pre ++ post) :=
+  (C13_absent (scanOp g seed r tm) pre post x e (C13_scan_one_error g seed r tm _ x e h)).1
+
+theorem C13_filter_absent {α γ} (p : α → Except Err γ) (t : γ → Bool) (pre post : List α) (x : α) (e : Err)
+    (h : p x = .error e) :
+    (compLocal (filterOp p t) ignoreOp).outL (pre ++ x :: post) = (compLocal (filterOp p t) ignoreOp).outL (pre ++ post) :=
+  (C13_absent (filterOp p t) pre post x e (C13_filter_one_error p t x e h)).1
 
 /-! non-vacuity -/
 example : (compLocal (mapOp (fun n : Nat => if n % 2 = 0 then Except.error "ValueError" else .ok (n + 10))) ignoreOp).outL [1, 2, 3]
